@@ -757,6 +757,34 @@ func alterations(in *injector, b base, duty core.Duty, distinct func(string)) {
 		}
 		in.mustReject("expired-duty", "msg.duty.slot", b.From, w, b.Name)
 	}
+	{ // expired duty for which the local node itself started (too late) to propose or participate:
+		// the skipped instance must not make later peer messages for that duty acceptable
+		nd := in.target()
+		exp := core.Duty{Slot: duty.Slot - 41 - uint64(rng.Intn(8)), Type: core.DutyFromProto(b.W.GetMsg().GetDuty()).Type}
+		nd.dl.expire(exp)
+		lctx, lcancel := context.WithTimeout(nd.ctx, 10*time.Second)
+		var lerr error
+		how := "propose"
+		if rng.Intn(2) == 0 {
+			lerr = nd.cons.ProposePriority(lctx, exp, &pbv1.PriorityResult{Msgs: []*pbv1.PriorityMsg{{PeerId: "late"}}})
+		} else {
+			how = "participate"
+			lerr = nd.cons.Participate(lctx, exp)
+		}
+		lcancel()
+		in.r.Count("late_local_start_for_expired_duty/"+how, 1)
+		if lerr != nil {
+			in.r.Count("late_local_start_error/"+kit.Short(lerr.Error(), 50), 1)
+		}
+		w := proto.Clone(b.W).(*pbv1.QBFTConsensusMsg)
+		w.Msg.Duty = core.DutyToProto(exp)
+		w.Msg = signIndep(w.Msg, e.keys[w.Msg.GetPeerIdx()])
+		for i, j := range w.Justification {
+			j.Duty = core.DutyToProto(exp)
+			w.Justification[i] = signIndep(j, e.keys[j.GetPeerIdx()])
+		}
+		in.mustReject("expired-duty-after-late-local-start", "msg.duty.slot", b.From, w, b.Name)
+	}
 }
 
 // isUnsignedEnvelopeNoop: an alteration of the outer envelope that leaves every signed message and
